@@ -7,6 +7,8 @@ Lemma read_all_in_range arr N ids :
   zlen arr = N -> Forall (fun u => 0 <= u < N) ids -> read_all arr ids <> OOB.
 Proof.
   intros L F. induction F as [|u r Hu Hr IH]; simpl; [discriminate|].
+  destruct ((u <? 0) || (u >=? zlen arr)) eqn:E.
+  { apply orb_true_iff in E as [E|E]; [apply Z.ltb_lt in E | apply Z.geb_le in E]; lia. }
   destruct (get_in arr u) as [a Ha]; [lia|]. rewrite Ha. simpl. exact IH.
 Qed.
 
